@@ -69,6 +69,11 @@ def listen (publicPort bound : Nat) (f : FailAt) : List Ev :=
   | .create => [.bound loopback bound, .create publicPort loopback bound, .closed bound, .fail]
   | .none => [.bound loopback bound, .create publicPort loopback bound, .ok publicPort]
 
+/-- `listen()` once more on an endpoint whose service exists from an earlier, successful `listen()` (its port has been
+stopped in between): "already in the config" — a new local listener is bound and handed out, and Tor is told nothing.
+(Recorded as a known finding of C17: the forwarding still points at the old local port.) -/
+def listenAgain (publicPort bound : Nat) : List Ev := [.bound loopback bound, .ok publicPort]
+
 /-- the listeners open after a trace -/
 def openAfter : List Ev → List Nat
   | [] => []
